@@ -39,16 +39,18 @@ impl Window {
 
     pub fn widen_down(&mut self) {
         self.increase_window_widening_rate();
-        self.alpha = clamp_alpha(self.alpha - self.width);
+        self.alpha = clamp_alpha(Eval(self.alpha.0.saturating_sub(self.width.0)));
     }
 
     pub fn widen_up(&mut self) {
         self.increase_window_widening_rate();
-        self.beta = clamp_beta(self.beta + self.width);
+        self.beta = clamp_beta(Eval(self.beta.0.saturating_add(self.width.0)));
     }
 
     fn increase_window_widening_rate(&mut self) {
-        self.width = self.width + self.width / 2;
+        // The window grows geometrically and the bounds can sit right next to the mate scores,
+        // so all of this has to saturate rather than overflow the 16-bit score
+        self.width = Eval(self.width.0.saturating_add(self.width.0 / 2));
     }
 }
 
